@@ -443,6 +443,7 @@ def run(cases):
                 try: c["msg"] = bytes.fromhex(x[4:]).decode("utf-8", "replace")
                 except ValueError: c["msg"] = x[4:]
         c["poisoned"] = "poisoned=1" in f
+        c["rebuilt"] = next((int(x[8:]) for x in f if x.startswith("rebuilt=") and x[8:].isdigit()), 0)
     return cases
 
 def kind_of(c):
@@ -561,7 +562,7 @@ def single_mutation(c):
 def oracle(cases, facts=None):
     fails = []
     stats = {"calls": 0, "panics": 0, "poisoned": 0, "died": 0, "valid_calls_checked": 0, "hex_args_judged": 0, "hex_args_refused": 0, "hex_args_accepted": 0,
-             "bad_json_checked": 0, "observations": {}, "ambiguous_inputs": {}}
+             "bad_json_checked": 0, "sessions_set_up": 0, "sessions_rebuilt_after_clock_tick": 0, "observations": {}, "ambiguous_inputs": {}}
     def fail(i, sig, what):
         c = cases[i]
         fails.append({"kind": "oracle", "signature": sig, "what": f"{c['id']} [{c['cls']}] `{c['op'][:200]}`: {what}",
@@ -570,6 +571,11 @@ def oracle(cases, facts=None):
     for i, c in enumerate(cases):
         a = c["impl"]
         if c["op"].startswith("reset"):
+            if a.startswith("ok:reset"):
+                # a set-up during which the wall clock left the session's own max_event_age_secs window (configurations `zeros`,
+                # `mixed`) is built again by the harness: the refusal of the then too-old first message is the configured behaviour
+                stats["sessions_set_up"] += 1
+                stats["sessions_rebuilt_after_clock_tick"] += c.get("rebuilt", 0)
             if not a.startswith("ok:reset"):
                 if a.startswith("PANIC"):
                     stats["panics"] += 1
